@@ -63,7 +63,7 @@ def judge(plan, outcome):
     m = outcome["measure"]
     env = {"route": plan["route"], "k": plan["k"], "build": plan["build"]}
     # (1) the profile sample fed back to itself reads 2.0 wherever the profile has depth
-    for route in ("bam", "yml", "own", "second_region"):
+    for route in ("bam", "yml", "own", "second_region", "reused_profile"):
         r = m["self"][route]
         if r.get("exc"):
             vs.append(_v("profile sample could not be normalised against its own profile", exc=r["exc"],
@@ -277,6 +277,21 @@ def run_segment(seg):
     shutil.copy(s0, selfs0)
     shutil.copy(s0 + ".bai", selfs0 + ".bai")
     res["self"]["own"] = _measure(gene, s0, man["neutral"], selfs0)
+    # one Profile object, two Sample constructions (an API user genotyping a batch keeps the profile)
+    from aldy.common import parse_cn_region as _pcr
+    from aldy.profile import Profile as _P
+    from aldy.sam import Sample as _S
+
+    try:
+        pr = _P.load(gene, refbam, _pcr(man["neutral"]))
+        first = _S(gene, pr, selfbam)
+        second = _S(gene, pr, selfbam)
+        res["self"]["reused_profile"] = {
+            "rc": [[[gi, r], second.coverage.region_coverage(gi, r)] for gi, gr in enumerate(gene.regions) for r in gr],
+            "pcov": {f"{gi}:{r}": 1 for gi, gr in enumerate(gene.regions) for r in gr
+                     if first.coverage.region_coverage(gi, r) != 0}}
+    except Exception as ex:
+        res["self"]["reused_profile"] = {"exc": O.exc_info(ex)}
     # same profile BAM, another custom neutral region, same process
     c0, c1 = world["neutral"]
     sh = world["hg38_shift"] if build == "hg38" else 0
